@@ -157,6 +157,20 @@ where
             objs.remove(&op[1]);
             Res::Ok
         }
+        "clonefrom" => {
+            let Some(src) = objs.remove(&op[2]) else { return Res::Unsupported };
+            let r = match (objs.get_mut(&op[1]), &src) {
+                (Some(Obj::C1(d)), Obj::C1(s)) => { d.clone_from(s); Res::Ok }
+                (Some(Obj::C2(d)), Obj::C2(s)) => { d.clone_from(s); Res::Ok }
+                (Some(Obj::C3(d)), Obj::C3(s)) => { d.clone_from(s); Res::Ok }
+                (Some(Obj::E1(d)), Obj::E1(s)) => { d.clone_from(s); Res::Ok }
+                (Some(Obj::E2(d)), Obj::E2(s)) => { d.clone_from(s); Res::Ok }
+                (Some(Obj::E3(d)), Obj::E3(s)) => { d.clone_from(s); Res::Ok }
+                _ => Res::Unsupported,
+            };
+            objs.insert(op[2].clone(), src);
+            r
+        }
         "cts_enc" => match objs.get(&op[1]) {
             Some(Obj::C1(m)) => do_enc(m.clone(), &op[2..], rs),
             Some(Obj::C2(m)) => do_enc(m.clone(), &op[2..], rs),
